@@ -13,8 +13,8 @@ from tlsverif.report import run_property  # noqa: E402
 def run(prop, tier):
     try:
         mod = importlib.import_module("tlsverif.rules." + prop.lower())
-    except ImportError as e:
-        print("ANALYSIS-ERROR property=%s no rules module: %s" % (prop, e))
+    except Exception as e:       # a broken rules module is an analysis error, never a verdict
+        print("ANALYSIS-ERROR property=%s rules module cannot be loaded: %s: %s" % (prop, type(e).__name__, e))
         return 2
     return run_property(prop, tier, mod.RULES, mod.EXPLANATION, mod.NOT_DECIDED, mod.TECHNIQUE)
 
